@@ -1,5 +1,6 @@
 // mode dataflow: programs over TS<Int> ports built at run time from a fixed vocabulary of static nodes and sub-graphs.
 // Serves C01 C02 C03 C06 C07 C08 C09 C14 C15 C18.
+#include <optional>
 #include "common.h"
 #include "vocab.h"
 #include "simthreads.h"
@@ -106,7 +107,10 @@ namespace hv
             }
             if (t[0] == "err")
             {   // err <rec id> <port>: activate error capture on the producer of <port>, record its error output
-                auto e = exception_time_series(port_of(pg, t[2]));
+                ErrorCaptureOptions opt;       // [depth=<n>] [values=<0|1>]: the diagnostic detail requested for this capture
+                opt.trace_back_depth = static_cast<std::size_t>(st.geti("depth", 1));
+                opt.capture_values   = st.geti("values", 0) != 0;
+                auto e = exception_time_series(port_of(pg, t[2]), opt);
                 wire<RecErr>(w, e, Int{std::stoll(t[1])});
                 return;
             }
@@ -139,6 +143,9 @@ namespace hv
             else if (kind == "c3") out = wire_valid<C3>(w, valid, 0, arg(0), arg(1), arg(2), id, op);
             else if (kind == "sample") out = wire<Sample>(w, arg(0), arg(1), id);
             else if (kind == "samplemid") out = wire<SampleMid>(w, arg(0), arg(1), arg(2), id);
+            else if (kind == "conv")
+                out = st.get("ty", "I") == "F" ? wire<FloatToInt>(w, wire<Conv, TS<Float>>(w, arg(0), id)).as<TS<Int>>()
+                                              : wire<Conv, TS<Int>>(w, arg(0), id).as<TS<Int>>();
             else if (kind == "accum") out = wire<Accum>(w, arg(0), id);
             else if (kind == "ticker") out = wire<Ticker>(w, Int{st.geti("count", 3)}, Int{st.geti("period", 1)}, id);
             else if (kind == "timer0") out = wire<Timer0>(w, id);
@@ -310,7 +317,17 @@ namespace hv
                 job.obs.gid.clear();
                 job.obs.next_gid = 0;
                 {
-                    auto ex = job.eb.make_executor();
+                    std::optional<GraphExecutorValue> made;
+                    try
+                    {
+                        made.emplace(job.eb.make_executor());
+                    }
+                    catch (const std::exception &e)
+                    {   // the wired graph could not be instantiated (bindings are resolved here)
+                        Line("wire_error").str("phase", "make_executor").str("what", e.what()).emit();
+                        return;
+                    }
+                    auto &ex = *made;
                     try
                     {
                         ex.view().run();
